@@ -58,6 +58,7 @@ type Recorder struct {
 	Pre func(c *Call) error
 
 	mu      sync.Mutex
+	pre     func(c *Call) error // set through SetPre (safe while calls are in flight)
 	calls   []*Call
 	readers []*Reader
 	writers []*Writer
@@ -183,9 +184,23 @@ func (w *Writer) Commit(d ociregistry.Digest) (ociregistry.Descriptor, error) {
 	return desc, err
 }
 
-func (r *Recorder) pre(c *Call) error {
-	if r.Pre != nil {
-		if err := r.Pre(c); err != nil {
+// SetPre installs (or with nil removes) the fault-injection hook; unlike assigning the Pre
+// field it may be called while calls are still in flight in other goroutines.
+func (r *Recorder) SetPre(f func(c *Call) error) {
+	r.mu.Lock()
+	r.pre = f
+	r.mu.Unlock()
+}
+
+func (r *Recorder) runPre(c *Call) error {
+	r.mu.Lock()
+	f := r.pre
+	r.mu.Unlock()
+	if f == nil {
+		f = r.Pre
+	}
+	if f != nil {
+		if err := f(c); err != nil {
 			c.Skipped = true
 			c.Err = err
 			return err
@@ -227,7 +242,7 @@ func (r *Recorder) Interface() ociregistry.Interface {
 	return &ociregistry.Funcs{
 		GetBlob_: func(ctx context.Context, repo string, d ociregistry.Digest) (ociregistry.BlobReader, error) {
 			c := r.add(&Call{Method: "GetBlob", Repo: repo, Digest: string(d), Ctx: ctx})
-			if err := r.pre(c); err != nil {
+			if err := r.runPre(c); err != nil {
 				return nil, err
 			}
 			br, err := in.GetBlob(ctx, repo, d)
@@ -235,7 +250,7 @@ func (r *Recorder) Interface() ociregistry.Interface {
 		},
 		GetBlobRange_: func(ctx context.Context, repo string, d ociregistry.Digest, o0, o1 int64) (ociregistry.BlobReader, error) {
 			c := r.add(&Call{Method: "GetBlobRange", Repo: repo, Digest: string(d), O0: o0, O1: o1, Ctx: ctx})
-			if err := r.pre(c); err != nil {
+			if err := r.runPre(c); err != nil {
 				return nil, err
 			}
 			br, err := in.GetBlobRange(ctx, repo, d, o0, o1)
@@ -243,7 +258,7 @@ func (r *Recorder) Interface() ociregistry.Interface {
 		},
 		GetManifest_: func(ctx context.Context, repo string, d ociregistry.Digest) (ociregistry.BlobReader, error) {
 			c := r.add(&Call{Method: "GetManifest", Repo: repo, Digest: string(d), Ctx: ctx})
-			if err := r.pre(c); err != nil {
+			if err := r.runPre(c); err != nil {
 				return nil, err
 			}
 			br, err := in.GetManifest(ctx, repo, d)
@@ -251,7 +266,7 @@ func (r *Recorder) Interface() ociregistry.Interface {
 		},
 		GetTag_: func(ctx context.Context, repo string, tag string) (ociregistry.BlobReader, error) {
 			c := r.add(&Call{Method: "GetTag", Repo: repo, Tag: tag, Ctx: ctx})
-			if err := r.pre(c); err != nil {
+			if err := r.runPre(c); err != nil {
 				return nil, err
 			}
 			br, err := in.GetTag(ctx, repo, tag)
@@ -259,7 +274,7 @@ func (r *Recorder) Interface() ociregistry.Interface {
 		},
 		ResolveBlob_: func(ctx context.Context, repo string, d ociregistry.Digest) (ociregistry.Descriptor, error) {
 			c := r.add(&Call{Method: "ResolveBlob", Repo: repo, Digest: string(d), Ctx: ctx})
-			if err := r.pre(c); err != nil {
+			if err := r.runPre(c); err != nil {
 				return ociregistry.Descriptor{}, err
 			}
 			c.RDesc, c.Err = in.ResolveBlob(ctx, repo, d)
@@ -267,7 +282,7 @@ func (r *Recorder) Interface() ociregistry.Interface {
 		},
 		ResolveManifest_: func(ctx context.Context, repo string, d ociregistry.Digest) (ociregistry.Descriptor, error) {
 			c := r.add(&Call{Method: "ResolveManifest", Repo: repo, Digest: string(d), Ctx: ctx})
-			if err := r.pre(c); err != nil {
+			if err := r.runPre(c); err != nil {
 				return ociregistry.Descriptor{}, err
 			}
 			c.RDesc, c.Err = in.ResolveManifest(ctx, repo, d)
@@ -275,7 +290,7 @@ func (r *Recorder) Interface() ociregistry.Interface {
 		},
 		ResolveTag_: func(ctx context.Context, repo string, tag string) (ociregistry.Descriptor, error) {
 			c := r.add(&Call{Method: "ResolveTag", Repo: repo, Tag: tag, Ctx: ctx})
-			if err := r.pre(c); err != nil {
+			if err := r.runPre(c); err != nil {
 				return ociregistry.Descriptor{}, err
 			}
 			c.RDesc, c.Err = in.ResolveTag(ctx, repo, tag)
@@ -285,7 +300,7 @@ func (r *Recorder) Interface() ociregistry.Interface {
 			c := &Call{Method: "PushBlob", Repo: repo, Digest: string(desc.Digest), Desc: desc, Ctx: ctx}
 			c.Data, c.ReadErr = io.ReadAll(rd)
 			r.add(c)
-			if err := r.pre(c); err != nil {
+			if err := r.runPre(c); err != nil {
 				return ociregistry.Descriptor{}, err
 			}
 			var content io.Reader = bytes.NewReader(c.Data)
@@ -297,7 +312,7 @@ func (r *Recorder) Interface() ociregistry.Interface {
 		},
 		PushBlobChunked_: func(ctx context.Context, repo string, chunkSize int) (ociregistry.BlobWriter, error) {
 			c := r.add(&Call{Method: "PushBlobChunked", Repo: repo, ChunkSize: chunkSize, Ctx: ctx})
-			if err := r.pre(c); err != nil {
+			if err := r.runPre(c); err != nil {
 				return nil, err
 			}
 			bw, err := in.PushBlobChunked(ctx, repo, chunkSize)
@@ -305,7 +320,7 @@ func (r *Recorder) Interface() ociregistry.Interface {
 		},
 		PushBlobChunkedResume_: func(ctx context.Context, repo, id string, offset int64, chunkSize int) (ociregistry.BlobWriter, error) {
 			c := r.add(&Call{Method: "PushBlobChunkedResume", Repo: repo, ID: id, Offset: offset, ChunkSize: chunkSize, Ctx: ctx})
-			if err := r.pre(c); err != nil {
+			if err := r.runPre(c); err != nil {
 				return nil, err
 			}
 			bw, err := in.PushBlobChunkedResume(ctx, repo, id, offset, chunkSize)
@@ -313,7 +328,7 @@ func (r *Recorder) Interface() ociregistry.Interface {
 		},
 		MountBlob_: func(ctx context.Context, from, to string, d ociregistry.Digest) (ociregistry.Descriptor, error) {
 			c := r.add(&Call{Method: "MountBlob", Repo: to, FromRepo: from, Digest: string(d), Ctx: ctx})
-			if err := r.pre(c); err != nil {
+			if err := r.runPre(c); err != nil {
 				return ociregistry.Descriptor{}, err
 			}
 			c.RDesc, c.Err = in.MountBlob(ctx, from, to, d)
@@ -321,7 +336,7 @@ func (r *Recorder) Interface() ociregistry.Interface {
 		},
 		PushManifest_: func(ctx context.Context, repo, tag string, contents []byte, mt string) (ociregistry.Descriptor, error) {
 			c := r.add(&Call{Method: "PushManifest", Repo: repo, Tag: tag, Data: append([]byte(nil), contents...), MediaType: mt, Ctx: ctx})
-			if err := r.pre(c); err != nil {
+			if err := r.runPre(c); err != nil {
 				return ociregistry.Descriptor{}, err
 			}
 			c.RDesc, c.Err = in.PushManifest(ctx, repo, tag, contents, mt)
@@ -329,7 +344,7 @@ func (r *Recorder) Interface() ociregistry.Interface {
 		},
 		DeleteBlob_: func(ctx context.Context, repo string, d ociregistry.Digest) error {
 			c := r.add(&Call{Method: "DeleteBlob", Repo: repo, Digest: string(d), Ctx: ctx})
-			if err := r.pre(c); err != nil {
+			if err := r.runPre(c); err != nil {
 				return err
 			}
 			c.Err = in.DeleteBlob(ctx, repo, d)
@@ -337,7 +352,7 @@ func (r *Recorder) Interface() ociregistry.Interface {
 		},
 		DeleteManifest_: func(ctx context.Context, repo string, d ociregistry.Digest) error {
 			c := r.add(&Call{Method: "DeleteManifest", Repo: repo, Digest: string(d), Ctx: ctx})
-			if err := r.pre(c); err != nil {
+			if err := r.runPre(c); err != nil {
 				return err
 			}
 			c.Err = in.DeleteManifest(ctx, repo, d)
@@ -345,7 +360,7 @@ func (r *Recorder) Interface() ociregistry.Interface {
 		},
 		DeleteTag_: func(ctx context.Context, repo string, name string) error {
 			c := r.add(&Call{Method: "DeleteTag", Repo: repo, Tag: name, Ctx: ctx})
-			if err := r.pre(c); err != nil {
+			if err := r.runPre(c); err != nil {
 				return err
 			}
 			c.Err = in.DeleteTag(ctx, repo, name)
@@ -353,21 +368,21 @@ func (r *Recorder) Interface() ociregistry.Interface {
 		},
 		Repositories_: func(ctx context.Context, startAfter string) ociregistry.Seq[string] {
 			c := r.add(&Call{Method: "Repositories", StartAfter: startAfter, Ctx: ctx})
-			if err := r.pre(c); err != nil {
+			if err := r.runPre(c); err != nil {
 				return ociregistry.ErrorSeq[string](err)
 			}
 			return in.Repositories(ctx, startAfter)
 		},
 		Tags_: func(ctx context.Context, repo, startAfter string) ociregistry.Seq[string] {
 			c := r.add(&Call{Method: "Tags", Repo: repo, StartAfter: startAfter, Ctx: ctx})
-			if err := r.pre(c); err != nil {
+			if err := r.runPre(c); err != nil {
 				return ociregistry.ErrorSeq[string](err)
 			}
 			return in.Tags(ctx, repo, startAfter)
 		},
 		Referrers_: func(ctx context.Context, repo string, d ociregistry.Digest, at string) ociregistry.Seq[ociregistry.Descriptor] {
 			c := r.add(&Call{Method: "Referrers", Repo: repo, Digest: string(d), ArtType: at, Ctx: ctx})
-			if err := r.pre(c); err != nil {
+			if err := r.runPre(c); err != nil {
 				return ociregistry.ErrorSeq[ociregistry.Descriptor](err)
 			}
 			return in.Referrers(ctx, repo, d, at)
